@@ -102,7 +102,59 @@ def do_op(ct, spec, name, vectorize):
                             float_precision='float64', file_name='cp_run')
 
 
+def stateful_job(job):
+    """The template carries a network state from an in-place simulation that was kept (clear=False).  A listed
+    non-mutating operation must leave that state - and so the initial state and arguments every later get_run_func
+    call starts from - exactly as it was (concrete frame condition; the function itself is covered by job_fn)."""
+    spec = job['spec']
+    ct = build_python(spec)
+    vec = job['vectorize']
+    wd = tv.scratch_dir()
+    old = os.getcwd()
+    os.chdir(wd)
+    viol = []
+
+    def snap():
+        f, args, keys, _ = ct.get_run_func('f_snap', step_size=0.25, in_place=False, verbose=False, vectorize=vec,
+                                           clear=True, float_precision='float64', file_name='snap_run')
+        st = {k: np.array(v, dtype=float, copy=True) for k, v in dict(ct.state).items()}
+        return [np.array(a, dtype=float, copy=True) if isinstance(a, np.ndarray) else a for a in args], list(keys), st
+    try:
+        with warnings.catch_warnings():
+            warnings.simplefilter('ignore')
+            ct.run(simulation_time=0.75, step_size=0.25, outputs={'o': first_state(spec)}, in_place=True, clear=False,
+                   verbose=False, vectorize=vec, float_precision='float64')
+            a0, k0, s0 = snap()
+            for name in job['ops']:
+                try:
+                    do_op(ct, spec, name, vec)
+                except Exception as e:   # noqa
+                    return dict(status='op-raises', error=f"{name} (on a template that holds a kept network state): "
+                                                          f"{type(e).__name__}: {e}")
+            a1, k1, s1 = snap()
+        if set(s0) != set(s1) or any(not np.array_equal(s0[k], s1[k]) for k in s0 if k in s1):
+            viol.append(dict(kind='state-changed', what=f"template.state before {sorted(s0)}: "
+                             f"{[s0[k].tolist() for k in sorted(s0)]}; after: {[s1[k].tolist() for k in sorted(s1)]}"))
+        if k0 != k1:
+            viol.append(dict(kind='state-changed', what=f"argument names changed: {k0} -> {k1}"))
+        else:
+            for k, x, y in zip(k0, a0, a1):
+                same = np.array_equal(x, y) if isinstance(x, np.ndarray) else (x == y or callable(x))
+                if not same:
+                    viol.append(dict(kind='state-changed', what=f"argument {k} of get_run_func was {np.asarray(x).tolist()} "
+                                     f"before the operation and is {np.asarray(y).tolist()} after it"))
+    finally:
+        os.chdir(old)
+    T = decide.Tally()
+    T.obligations += 1
+    T.unsat += 0 if viol else 1
+    return dict(status='ok', res=dict(violations=viol, inconclusive=[], obligations=[dict(var='frame', verdict='held' if not viol else 'broken')],
+                                      diagnostics=[]), tally=T.as_dict(), src='', keys=[], smap={})
+
+
 def job_fn(job):
+    if job.get('stateful'):
+        return stateful_job(job)
     spec = job['spec']
     out = dict(status='ok')
     ct = build_python(spec)
@@ -159,6 +211,16 @@ def run(tier='quick', seed=0, only=None, verbose=False):
         for seq in seqs:
             for vec in ((True, False) if len(seq) == 1 else (True,)):
                 jobs.append(dict(key=f"{key}|ops={'+'.join(seq)}|vec={vec}", spec=spec, ops=seq, vectorize=vec))
+    # templates that hold a kept network state (in-place run with clear=False)
+    safe = ['run', 'run_noclear', 'get_run_func', 'get_run_func_noclear', 'get_jacobian_func', 'get_nodes', 'get_edges',
+            'collect_edges', 'get_node_template', 'getitem', 'to_yaml', 'deepcopy', 'update_var_on_copy']
+    for key, spec in base[:3]:
+        for name in safe:
+            for vec in ((True, False) if tier == 'thorough' else (True,)):
+                if name == 'get_jacobian_func' and vec:
+                    continue      # that operation compiles with vectorize=False: another layout than the kept state (loud)
+                jobs.append(dict(key=f"{key}|stateful|ops={name}|vec={vec}", spec=spec, ops=(name,), vectorize=vec,
+                                 stateful=True))
     if only:
         jobs = [j for j in jobs if only in j['key']]
 
